@@ -8,6 +8,7 @@ from pbt import standins
 
 handler = None  # callable(cdb, dataout, datain) -> (status, sense-bytes-or-None)
 routes = {}  # device node path -> handler (takes precedence over the global handler)
+residual = 0  # what execute() returns for GOOD status (the real binding returns the residual count)
 
 
 class CheckConditionError(Exception):
@@ -39,10 +40,10 @@ def execute(fid, cdb, data_out, data_in, max_sense_data_length=32, return_sense_
         raise PermissionError(1, "SG_IO: data-out transfer on a read-only descriptor")
     h = routes.get(getattr(fid, "name", None), handler)
     if h is None:
-        return 0
+        return residual
     status, sense = h(cdb, data_out, data_in)
     if status == 0x00:
-        return 0
+        return residual
     if status == 0x02:
         raise CheckConditionError(bytes(sense or b""))
     raise UnspecifiedError()
